@@ -419,7 +419,9 @@ pub fn execute(tree: &Tree, inv: &Invocation) -> Observed {
 }
 
 fn contains(hay: &[u8], needle: &[u8]) -> bool {
-    !needle.is_empty() && hay.windows(needle.len()).any(|w| w == needle)
+    // a formatted text of nothing but blanks (the empty document formats to one line feed) cannot
+    // be told from the line ends of ordinary messages: only texts with visible content count
+    needle.iter().any(|b| !b.is_ascii_whitespace()) && hay.windows(needle.len()).any(|w| w == needle)
 }
 
 /// Compare one real transition with the reference model. Returns (clause, detail) list.
@@ -591,7 +593,7 @@ impl Model for CliModel {
         }
         // already formatted content: reached anyway as a successor state; starting from it as well
         // lets the quick tier check "a second run is a no-op" within a smaller depth bound
-        kinds.push(f0);
+        kinds.push(f0.clone());
         let plain: Vec<Vec<u8>> = vec![U0.to_vec(), W.to_vec()];
         let mut entries: Vec<(String, Entry)> = vec![];
         for s in SLOTS {
@@ -629,6 +631,26 @@ impl Model for CliModel {
         let mut more: Vec<Tree> = vec![];
         rec(&plain_entries, 0, full + 1, &mut Tree::new(), &mut more);
         res.extend(more.into_iter().filter(|t| t.len() == full + 1));
+        // single files that differ from their formatted text only at line ends (final line feed
+        // missing, CRLF line ends) or in one aspect of style, alone and next to one plain file
+        let mut nolf = f0.clone();
+        nolf.pop();
+        let crlf: Vec<u8> = String::from_utf8_lossy(&fmt(TB, Style::Default).unwrap().unwrap()).replace('\n', "\r\n").into_bytes();
+        let special: Vec<Vec<u8>> = vec![nolf, crlf, NONL.to_vec(), TB.to_vec(), IM.to_vec(), Vec::new(), b"\n".to_vec(), b" \n".to_vec()];
+        for s in SLOTS {
+            for k in &special {
+                let mut t = Tree::new();
+                t.insert(s.to_string(), Entry::File(k.clone()));
+                res.push(t.clone());
+                for s2 in SLOTS.iter().take(2) {
+                    if *s2 != s {
+                        let mut t2 = t.clone();
+                        t2.insert(s2.to_string(), Entry::File(U0.to_vec()));
+                        res.push(t2);
+                    }
+                }
+            }
+        }
         res.sort();
         res.dedup();
         res.into_iter().enumerate().filter(|(i, _)| i % self.partitions == self.partition).map(|x| x.1).collect()
